@@ -1662,4 +1662,542 @@ theorem projectAll_fix (c : Cfg) (hc : CfgOk c) (L : List Rat) (hl : AllPos L) (
     rw [hk]
     exact finalize_fix c hc L hl b hs hf
 
+/-! ### far-end clamp: list arithmetic -/
+
+theorem vsub_replicate (z : List Rat) (d : Rat) :
+    vsub z (List.replicate z.length d) = z.map (fun x => x - d) := by
+  induction z with
+  | nil => rfl
+  | cons x xs ih =>
+    simp only [vsub, List.length_cons, List.replicate_succ, List.zipWith_cons_cons, List.map_cons] at ih ⊢
+    rw [ih]
+
+theorem vsub_map_add_self (r : List Rat) (d : Rat) :
+    vsub (r.map (fun x => x + d)) r = List.replicate r.length d := by
+  induction r with
+  | nil => rfl
+  | cons x xs ih =>
+    simp only [vsub, List.map_cons, List.zipWith_cons_cons, List.length_cons, List.replicate_succ] at ih ⊢
+    rw [ih]
+    congr 1
+    ring
+
+theorem rsum_map_add (r : List Rat) (d : Rat) :
+    rsum (r.map (fun x => x + d)) = rsum r + (r.length : Rat) * d := by
+  induction r with
+  | nil => simp [rsum]
+  | cons x xs ih =>
+    simp only [List.map_cons, rsum, ih, List.length_cons]
+    push_cast
+    ring
+
+theorem rsum_map_sub (r : List Rat) (d : Rat) :
+    rsum (r.map (fun x => x - d)) = rsum r - (r.length : Rat) * d := by
+  induction r with
+  | nil => simp [rsum]
+  | cons x xs ih =>
+    simp only [List.map_cons, rsum, ih, List.length_cons]
+    push_cast
+    ring
+
+theorem rsum_map_max_ge (y : List Rat) : rsum y ≤ rsum (y.map (fun h => max h 0)) := by
+  induction y with
+  | nil => simp [rsum]
+  | cons x xs ih =>
+    simp only [List.map_cons, rsum]
+    have := le_max_left x 0
+    linarith
+
+theorem rsum_map_min_le (y : List Rat) : rsum (y.map (fun h => min h 0)) ≤ rsum y := by
+  induction y with
+  | nil => simp [rsum]
+  | cons x xs ih =>
+    simp only [List.map_cons, rsum]
+    have := min_le_left x 0
+    linarith
+
+/-- telescoping: the last clipped output -/
+theorem clipDiffs_last (f : Rat → Rat) (b : Rat) (hs : List Rat) :
+    f b + rsum (clipDiffs f b hs) = f (b + rsum hs) := by
+  induction hs generalizing b with
+  | nil => simp [clipDiffs, rsum]
+  | cons h hs ih =>
+    simp only [clipDiffs, rsum]
+    have := ih (b + h)
+    have e : b + (h + rsum hs) = b + h + rsum hs := by ring
+    rw [e, ← this]
+    ring
+
+/-- relation between the last MONOTONICITY change and the heights after it (increasing case):
+the change is non-negative and where it is positive the height is zero -/
+def RelM (m z : Rat) : Prop := 0 ≤ m ∧ (0 < m → z = 0)
+
+theorem relM_after_mono (y : List Rat) :
+    List.Forall₂ RelM (vsub (y.map (fun h => max h 0)) y) (y.map (fun h => max h 0)) := by
+  induction y with
+  | nil => exact List.Forall₂.nil
+  | cons x xs ih =>
+    simp only [vsub, List.map_cons, List.zipWith_cons_cons] at ih ⊢
+    refine List.Forall₂.cons ⟨?_, fun hpos => ?_⟩ ih
+    · have := le_max_left x 0; linarith
+    · have hx : x < 0 := by
+        by_contra hc
+        have := max_eq_left (not_lt.mp hc)
+        rw [this] at hpos
+        linarith
+      exact max_eq_right hx.le
+
+theorem relM_zeros (z : List Rat) : List.Forall₂ RelM (zeros z.length) z := by
+  induction z with
+  | nil => exact List.Forall₂.nil
+  | cons x xs ih =>
+    simp only [zeros, List.length_cons, List.replicate_succ] at ih ⊢
+    exact List.Forall₂.cons ⟨le_rfl, fun h => absurd h (lt_irrefl 0)⟩ ih
+
+/-- the MONOTONICITY step after a uniform shift `z ↦ z - δ + hd` with `hd ≤ δ` does not lower
+the sum of heights -/
+theorem rsum_after_mono_ge (lcM z : List Rat) (δ hd : Rat) (hrel : List.Forall₂ RelM lcM z)
+    (hd_le : hd ≤ δ) :
+    rsum (z.map (fun x => x - δ + hd)) ≤
+      rsum ((vsub (z.map (fun x => x - δ + hd)) lcM).map (fun h => max h 0)) := by
+  induction hrel with
+  | nil => simp [vsub, rsum]
+  | @cons m x ms xs hmx _ ih =>
+    simp only [vsub, List.map_cons, List.zipWith_cons_cons, rsum] at ih ⊢
+    have hel : x - δ + hd ≤ max (x - δ + hd - m) 0 := by
+      rcases lt_or_eq_of_le hmx.1 with hpos | h0
+      · have := hmx.2 hpos
+        rw [this]
+        have : (0 : Rat) - δ + hd ≤ 0 := by linarith
+        exact le_trans this (le_max_right _ _)
+      · rw [← h0, sub_zero]; exact le_max_left _ _
+    linarith
+
+/-! ### far-end clamp: the BOUNDS projection with `output_max` clamped (increasing form) -/
+
+/-- with the upper bound clamped the BOUNDS projection shifts every height by one amount `hd`
+and puts the far end exactly on `output_max` -/
+theorem projectBoundsInc_clamped_max (rb : Rat) (r : List Rat) (hr : r ≠ []) (omin omax : Rat)
+    (minC : BCT) :
+    ∃ hd : Rat,
+      (projectBoundsInc rb r omin omax minC .clamped).2 = r.map (fun x => x + hd) ∧
+      (projectBoundsInc rb r omin omax minC .clamped).1 +
+        rsum (projectBoundsInc rb r omin omax minC .clamped).2 = omax ∧
+      (minC = .clamped → (projectBoundsInc rb r omin omax minC .clamped).1 = omin ∧
+        hd = (omax - (omin + rsum r)) / (r.length : Rat)) ∧
+      (minC = .none → (projectBoundsInc rb r omin omax minC .clamped).1 = rb + hd ∧
+        hd = (omax - (rb + rsum r)) / ((r.length : Rat) + 1)) ∧
+      (minC = .bound →
+        (projectBoundsInc rb r omin omax minC .clamped).1 =
+          max (rb + (omax - (rb + rsum r)) / ((r.length : Rat) + 1)) omin ∧
+        hd = (omax - ((projectBoundsInc rb r omin omax minC .clamped).1 + rsum r)) / (r.length : Rat)) := by
+  have hlen : 0 < r.length := List.length_pos_of_ne_nil hr
+  have hN : (0 : Rat) < (r.length : Rat) := by exact_mod_cast hlen
+  have hN1 : (0 : Rat) < (r.length : Rat) + 1 := by linarith
+  have hx : (BCT.clamped) ≠ BCT.none := by simp
+  have hcc : ¬ (BCT.clamped ≠ BCT.clamped) := by simp
+  unfold projectBoundsInc
+  rw [if_pos hx]
+  simp only [if_neg hcc]
+  cases minC with
+  | clamped =>
+    refine ⟨(omax - (omin + rsum r)) / (r.length : Rat), rfl, ?_, fun _ => ⟨rfl, rfl⟩,
+      fun h => (by cases h), fun h => (by cases h)⟩
+    simp only [rsum_map_add]
+    field_simp
+    ring
+  | bound =>
+    refine ⟨(omax - (max (rb + (omax - (rb + rsum r)) / ((r.length : Rat) + 1)) omin + rsum r)) /
+      (r.length : Rat), rfl, ?_, fun h => (by cases h), fun h => (by cases h), fun _ => ⟨rfl, rfl⟩⟩
+    simp only [rsum_map_add]
+    field_simp
+    ring
+  | none =>
+    refine ⟨(omax - (rb + rsum r)) / ((r.length : Rat) + 1), rfl, ?_, fun h => (by cases h),
+      fun _ => ⟨rfl, rfl⟩, fun h => (by cases h)⟩
+    simp only [rsum_map_add]
+    field_simp
+    ring
+
+/-- without convexity the body is the BOUNDS step followed by the MONOTONICITY step -/
+theorem body_conv0 (c : Cfg) (L : List Rat) (st : State) (hcv : c.conv = 0) :
+    body c L st = (stepBounds c st).map (stepMono c) := by
+  unfold body
+  simp only [bind, Except.bind]
+  cases h1 : stepBounds c st with
+  | error e => rfl
+  | ok s1 =>
+    simp only [Except.map]
+    rw [stepConv0_off c L _ (fun h => h.1 hcv)]
+    simp only
+    rw [stepConv1_off c L _ (fun h => h.1 hcv)]
+
+/-- explicit result of one body run for an increasing calibrator with bounds, no convexity -/
+theorem body_inc_fields (c : Cfg) (L : List Rat) (st st' : State) (hm : c.mono = 1) (hcv : c.conv = 0)
+    (hB : hasBounds c) (h : body c L st = .ok st') :
+    st'.bias = (projectBoundsInc (st.bias - st.lc.biasBounds) (vsub st.heights st.lc.hBounds)
+        c.omin c.omax c.minC c.maxC).1 ∧
+    st'.heights = (vsub (projectBoundsInc (st.bias - st.lc.biasBounds) (vsub st.heights st.lc.hBounds)
+        c.omin c.omax c.minC c.maxC).2 st.lc.hMono).map (fun h => max h 0) ∧
+    st'.lc.biasBounds = (projectBoundsInc (st.bias - st.lc.biasBounds) (vsub st.heights st.lc.hBounds)
+        c.omin c.omax c.minC c.maxC).1 - (st.bias - st.lc.biasBounds) ∧
+    st'.lc.hBounds = vsub (projectBoundsInc (st.bias - st.lc.biasBounds) (vsub st.heights st.lc.hBounds)
+        c.omin c.omax c.minC c.maxC).2 (vsub st.heights st.lc.hBounds) ∧
+    st'.lc.hMono = vsub ((vsub (projectBoundsInc (st.bias - st.lc.biasBounds)
+        (vsub st.heights st.lc.hBounds) c.omin c.omax c.minC c.maxC).2 st.lc.hMono).map (fun h => max h 0))
+        (vsub (projectBoundsInc (st.bias - st.lc.biasBounds) (vsub st.heights st.lc.hBounds)
+        c.omin c.omax c.minC c.maxC).2 st.lc.hMono) := by
+  rw [body_conv0 c L st hcv] at h
+  have hB' : c.minC ≠ .none ∨ c.maxC ≠ .none := hB
+  have hm0 : c.mono ≠ 0 := by omega
+  have hm1 : ¬ c.mono = -1 := by omega
+  unfold stepBounds at h
+  rw [if_pos hB'] at h
+  simp only [if_pos hm0, projectBoundsConsideringMonotonicity, if_neg hm1, if_pos hm, Except.map,
+    Except.ok.injEq] at h
+  subst h
+  refine ⟨?_, ?_, ?_, ?_, ?_⟩ <;> simp [stepMono, projectMonotonicity, hm]
+
+/-! ### far-end clamp: the Dykstra invariant (increasing calibrator, `output_max` clamped) -/
+
+/-- shape facts every iteration re-establishes: complementarity of the last MONOTONICITY change,
+the rolled-back bias is always the original bias `rb0`, the last BOUNDS change of the heights is
+one uniform shift `δ` -/
+def FarCore (rb0 : Rat) (st : State) (δ : Rat) : Prop :=
+  List.Forall₂ RelM st.lc.hMono st.heights ∧ st.bias - st.lc.biasBounds = rb0 ∧
+    st.lc.hBounds = List.replicate st.heights.length δ
+
+/-- the far end is at or above `output_max`, and the bias has the form the BOUNDS step gives it -/
+def FarBias (c : Cfg) (rb0 : Rat) (st : State) (δ : Rat) : Prop :=
+  c.omax ≤ st.bias + rsum st.heights ∧
+    (c.minC = .clamped → st.bias = c.omin) ∧
+    (c.minC = .none → st.bias = rb0 + δ) ∧
+    (c.minC = .bound → st.bias = c.omin ∨ st.bias = rb0 + δ)
+
+/-- invariant after at least one iteration -/
+def FarInv (c : Cfg) (rb0 : Rat) (st : State) : Prop := ∃ δ, FarCore rb0 st δ ∧ FarBias c rb0 st δ
+
+/-- what holds before an iteration: the invariant, or the initial state (no MONOTONICITY change yet) -/
+def FarPre (c : Cfg) (rb0 : Rat) (st : State) : Prop :=
+  ∃ δ, FarCore rb0 st δ ∧ (FarBias c rb0 st δ ∨ st.lc.hMono = zeros st.heights.length)
+
+theorem farInv_pre {c : Cfg} {rb0 : Rat} {st : State} (h : FarInv c rb0 st) : FarPre c rb0 st := by
+  obtain ⟨δ, h1, h2⟩ := h
+  exact ⟨δ, h1, Or.inl h2⟩
+
+theorem farPre_init (c : Cfg) (b : Rat) (hs : List Rat) : FarPre c b (initState b hs) :=
+  ⟨0, ⟨relM_zeros hs, by simp [initState], rfl⟩, Or.inr rfl⟩
+
+/-- **one Dykstra iteration establishes / preserves the far-end invariant** -/
+theorem far_step (c : Cfg) (L : List Rat) (rb0 : Rat) (n : Nat) (hn : 0 < n) (st st' : State)
+    (hm : c.mono = 1) (hcv : c.conv = 0) (hmax : c.maxC = .clamped) (hw : WF n st)
+    (hpre : FarPre c rb0 st) (h : body c L st = .ok st') : FarInv c rb0 st' := by
+  have hB : hasBounds c := Or.inr (by rw [hmax]; simp)
+  obtain ⟨e_bias, e_heights, e_lcb, e_lch, e_lcm⟩ := body_inc_fields c L st st' hm hcv hB h
+  obtain ⟨δ, ⟨hrel, hrb, hlcB⟩, hdisj⟩ := hpre
+  obtain ⟨w1, w2, w3, _, _⟩ := hw
+  -- the rolled-back point
+  rw [hrb] at e_bias e_heights e_lcb e_lch e_lcm
+  have hrh : vsub st.heights st.lc.hBounds = st.heights.map (fun x => x - δ) := by
+    rw [hlcB, vsub_replicate]
+  rw [hrh, hmax] at e_bias e_heights e_lcb e_lch e_lcm
+  set r := st.heights.map (fun x => x - δ) with hr_def
+  have hrlen : r.length = n := by simp [hr_def, w1]
+  have hrne : r ≠ [] := by
+    intro e; rw [e] at hrlen; simp at hrlen; omega
+  have hN : (0 : Rat) < (r.length : Rat) := by rw [hrlen]; exact_mod_cast hn
+  have hN1 : (0 : Rat) < (r.length : Rat) + 1 := by linarith
+  obtain ⟨hd, hp2, hpsum, hcl, hno, hbo⟩ := projectBoundsInc_clamped_max rb0 r hrne c.omin c.omax c.minC
+  set p := projectBoundsInc rb0 r c.omin c.omax c.minC .clamped with hp_def
+  have hrsum : rsum r = rsum st.heights - (r.length : Rat) * δ := by
+    rw [hr_def, rsum_map_sub]; simp
+  have hp2' : p.2 = st.heights.map (fun x => x - δ + hd) := by
+    rw [hp2, hr_def, List.map_map]; rfl
+  have hp2len : p.2.length = n := by rw [hp2]; simp [hrlen]
+  -- bias form after this BOUNDS step
+  have hform : (c.minC = .clamped → p.1 = c.omin) ∧ (c.minC = .none → p.1 = rb0 + hd) ∧
+      (c.minC = .bound → p.1 = c.omin ∨ p.1 = rb0 + hd) := by
+    refine ⟨fun e => (hcl e).1, fun e => (hno e).1, fun e => ?_⟩
+    obtain ⟨e1, e2⟩ := hbo e
+    by_cases hle : rb0 + (c.omax - (rb0 + rsum r)) / ((r.length : Rat) + 1) ≤ c.omin
+    · left; rw [e1]; exact max_eq_right hle
+    · right
+      have hmx : p.1 = rb0 + (c.omax - (rb0 + rsum r)) / ((r.length : Rat) + 1) := by
+        rw [e1]; exact max_eq_left (not_le.mp hle).le
+      have : hd = (c.omax - (rb0 + rsum r)) / ((r.length : Rat) + 1) := by
+        rw [e2, hmx]
+        field_simp
+        ring
+      rw [hmx, this]
+  -- the sum does not drop in the MONOTONICITY step
+  have hkey : rsum p.2 ≤ rsum ((vsub p.2 st.lc.hMono).map (fun h => max h 0)) := by
+    rcases hdisj with ⟨hfar, fcl, fno, fbo⟩ | hz
+    · have hd_le : hd ≤ δ := by
+        cases hmc : c.minC with
+        | clamped =>
+          have hb := fcl hmc
+          rw [(hcl hmc).2, div_le_iff₀ hN, hrsum]
+          rw [hb] at hfar
+          nlinarith
+        | none =>
+          have hb := fno hmc
+          rw [(hno hmc).2, div_le_iff₀ hN1, hrsum]
+          rw [hb] at hfar
+          nlinarith
+        | bound =>
+          obtain ⟨e1, e2⟩ := hbo hmc
+          rw [e2, div_le_iff₀ hN, hrsum]
+          have hge1 : c.omin ≤ p.1 := by rw [e1]; exact le_max_right _ _
+          have hge2 : rb0 + (c.omax - (rb0 + rsum r)) / ((r.length : Rat) + 1) ≤ p.1 := by
+            rw [e1]; exact le_max_left _ _
+          have hfarp : c.omax ≤ p.1 + rsum st.heights := by
+            rcases fbo hmc with hb | hb
+            · rw [hb] at hfar; linarith
+            · rw [hb] at hfar
+              have hbd : (c.omax - (rb0 + rsum r)) / ((r.length : Rat) + 1) * ((r.length : Rat) + 1) =
+                  c.omax - (rb0 + rsum r) := by field_simp
+              rw [hrsum] at hbd hge2
+              nlinarith
+          nlinarith
+      rw [hp2']
+      exact rsum_after_mono_ge _ _ δ hd hrel hd_le
+    · rw [hz, show st.heights.length = p.2.length from w1.trans hp2len.symm, vsub_zeros]
+      exact rsum_map_max_ge _
+  have hlen' : st'.heights.length = n := by
+    rw [e_heights]; simp [length_vsub, hp2len, w3]
+  refine ⟨hd, ⟨?_, ?_, ?_⟩, ?_, ?_, ?_, ?_⟩
+  · rw [e_lcm, e_heights]; exact relM_after_mono _
+  · rw [e_bias, e_lcb]; ring
+  · rw [e_lch, hlen', hp2, vsub_map_add_self, hrlen]
+  · rw [e_bias, e_heights]; linarith
+  · intro e; rw [e_bias]; exact hform.1 e
+  · intro e; rw [e_bias]; exact hform.2.1 e
+  · intro e; rw [e_bias]; exact hform.2.2 e
+
+theorem whileLoop_inv' (c : Cfg) (L : List Rat) (lim n : Nat) (Q : State → Prop)
+    (hQ : ∀ s s', WF n s → Q s → body c L s = .ok s' → Q s') (fuel : Nat) (st st' : State)
+    (hw : WF n st) (h0 : Q st) (h : whileLoop c L lim fuel st = .ok st') : Q st' := by
+  induction fuel generalizing st with
+  | zero => simp only [whileLoop, Except.ok.injEq] at h; subst h; exact h0
+  | succ k ih =>
+    simp only [whileLoop] at h
+    split_ifs at h
+    · cases hb : body c L st with
+      | error e => rw [hb] at h; cases h
+      | ok s =>
+        rw [hb] at h
+        exact ih s (body_spec c L n st s hw hb).1 (hQ st s hw h0 hb) h
+    · cases h; exact h0
+
+/-- after at least one iteration of the loop the far-end invariant holds -/
+theorem whileLoop_far (c : Cfg) (L : List Rat) (rb0 : Rat) (n : Nat) (hn : 0 < n)
+    (hm : c.mono = 1) (hcv : c.conv = 0) (hmax : c.maxC = .clamped) (lim fuel : Nat) (st st' : State)
+    (hw : WF n st) (hpre : FarPre c rb0 st) (hf : 0 < fuel) (hlim : st.counter < lim)
+    (h : whileLoop c L lim fuel st = .ok st') : FarInv c rb0 st' := by
+  cases fuel with
+  | zero => omega
+  | succ k =>
+    simp only [whileLoop, if_pos hlim] at h
+    cases hb : body c L st with
+    | error e => rw [hb] at h; cases h
+    | ok s =>
+      rw [hb] at h
+      have h1 : FarInv c rb0 s := far_step c L rb0 n hn st s hm hcv hmax hw hpre hb
+      exact whileLoop_inv' c L lim n (FarInv c rb0)
+        (fun s s' hws hq hbs => far_step c L rb0 n hn s s' hm hcv hmax hws (farInv_pre hq) hbs)
+        k s st' (body_spec c L n st s hw hb).1 h1 h
+
+theorem clipB_of_ge_max (omin omax : Rat) (minC : BCT) (x : Rat) (h : omax ≤ x) :
+    clipB omin omax minC .bound x = omax := by
+  unfold clipB
+  simp only [if_true]
+  split_ifs
+  · exact min_eq_right (le_trans h (le_max_left _ _))
+  · exact min_eq_right h
+
+theorem clipB_of_le_min (omin omax : Rat) (maxC : BCT) (x : Rat) (h : x ≤ omin)
+    (hb : maxC = .bound → omin ≤ omax) : clipB omin omax .bound maxC x = omin := by
+  unfold clipB
+  simp only [if_true, max_eq_right h]
+  split_ifs with hx
+  · exact min_eq_left (hb hx)
+  · rfl
+
+/-- the loop result handed to the finalisation, when at least two projection sets exist -/
+theorem projectAll_loop (c : Cfg) (L : List Rat) (it : Nat) (b : Rat) (hs : List Rat)
+    (out : Rat × List Rat) (hnp : 2 ≤ numProjections c hs.length)
+    (h : projectAll c L it b hs = .ok out) :
+    ∃ st, WF hs.length st ∧
+      whileLoop c L (it * numProjections c hs.length) (it * numProjections c hs.length)
+        (initState b hs) = .ok st ∧ finalize c L st.bias st.heights = .ok out := by
+  rcases projectAll_cases c L it b hs out h with ⟨hn, _⟩ | ⟨_, st, hw, hwl, hf⟩
+  · omega
+  · exact ⟨st, hw, hwl, hf⟩
+
+/-- **far end, increasing calibrator, `clamp_max`:** for iterations ≥ 1 without convexity the last
+keypoint output equals `output_max` exactly -/
+theorem far_end_inc (c : Cfg) (L : List Rat) (it : Nat) (hit : 1 ≤ it) (b : Rat) (hs : List Rat)
+    (hne : hs ≠ []) (hm : c.mono = 1) (hcv : c.conv = 0) (hmax : c.maxC = .clamped)
+    (out : Rat × List Rat) (h : projectAll c L it b hs = .ok out) :
+    out.1 + rsum out.2 = c.omax := by
+  have hB : hasBounds c := Or.inr (by rw [hmax]; simp)
+  have hm0 : c.mono ≠ 0 := by omega
+  have hnp : 2 ≤ numProjections c hs.length := by
+    unfold numProjections; rw [if_pos hB, if_pos hm0]; omega
+  obtain ⟨st, hw, hwl, hf⟩ := projectAll_loop c L it b hs out hnp h
+  have hn : 0 < hs.length := List.length_pos_of_ne_nil hne
+  have hpos : 0 < it * numProjections c hs.length := Nat.mul_pos (by omega) (by omega)
+  obtain ⟨δ, _, hfar, _⟩ := whileLoop_far c L b hs.length hn hm hcv hmax _ _ _ st (wf_init b hs)
+    (farPre_init c b hs) hpos (by simpa [initState] using hpos) hwl
+  rw [finalize_eq] at hf
+  have hB' : c.minC ≠ .none ∨ c.maxC ≠ .none := hB
+  have h2 : ¬ (c.mono ≠ 0 ∧ c.conv ≠ 0) := fun hh => hh.2 hcv
+  rw [if_pos hB', if_neg h2] at hf
+  cases hf
+  simp only
+  rw [clipDiffs_last]
+  have hfh : finalHeights c L st.heights = st.heights.map (fun h => max h 0) := by
+    simp [finalHeights, hm, hcv, projectMonotonicity]
+  have hu : unclamp c.maxC = .bound := by rw [hmax]; rfl
+  rw [hu, hfh]
+  exact clipB_of_ge_max _ _ _ _ (le_trans hfar (by linarith [rsum_map_max_ge st.heights]))
+
+/-! ### far-end clamp: the decreasing calibrator is the mirror image of the increasing one -/
+
+def reflCfg (c : Cfg) : Cfg := ⟨-c.mono, c.conv, -c.omax, -c.omin, c.maxC, c.minC⟩
+def reflChanges (l : Changes) : Changes :=
+  ⟨-l.biasBounds, vneg l.hBounds, vneg l.hMono, vneg l.hConv0, vneg l.hConv1⟩
+def reflSt (s : State) : State := ⟨s.counter, -s.bias, vneg s.heights, reflChanges s.lc⟩
+
+theorem vneg_vsub (a b : List Rat) : vneg (vsub a b) = vsub (vneg a) (vneg b) := by
+  induction a generalizing b with
+  | nil => simp [vsub, vneg]
+  | cons x xs ih => cases b with
+    | nil => simp [vsub, vneg]
+    | cons y ys =>
+      simp only [vsub, vneg, List.zipWith_cons_cons, List.map_cons] at ih ⊢
+      rw [ih ys]
+      congr 1
+      ring
+
+theorem map_max_vneg (y : List Rat) :
+    (vneg y).map (fun h => max h 0) = vneg (y.map (fun h => min h 0)) := by
+  induction y with
+  | nil => rfl
+  | cons x xs ih =>
+    simp only [vneg, List.map_cons] at ih ⊢
+    rw [ih]
+    congr 1
+    rcases le_total x 0 with h | h
+    · rw [min_eq_left h, max_eq_left (by linarith)]
+    · rw [min_eq_right h, max_eq_right (by linarith)]; simp
+
+@[simp] theorem length_vneg (a : List Rat) : (vneg a).length = a.length := by simp [vneg]
+
+theorem vneg_zeros (n : Nat) : vneg (zeros n) = zeros n := by simp [vneg, zeros]
+
+theorem reflSt_init (b : Rat) (hs : List Rat) : reflSt (initState b hs) = initState (-b) (vneg hs) := by
+  simp [reflSt, reflChanges, initState, vneg_zeros]
+
+theorem stepBounds_refl (c : Cfg) (st : State) (hm : c.mono = -1) :
+    stepBounds (reflCfg c) (reflSt st) = (stepBounds c st).map reflSt := by
+  have hm' : (reflCfg c).mono = 1 := by simp [reflCfg, hm]
+  have h10 : (reflCfg c).mono ≠ 0 := by omega
+  have h1n : ¬ (reflCfg c).mono = -1 := by omega
+  have hc0 : c.mono ≠ 0 := by omega
+  have e1 : (reflSt st).bias - (reflSt st).lc.biasBounds = -(st.bias - st.lc.biasBounds) := by
+    simp only [reflSt, reflChanges]; ring
+  have e2 : vsub (reflSt st).heights (reflSt st).lc.hBounds = vneg (vsub st.heights st.lc.hBounds) := by
+    simp only [reflSt, reflChanges]; exact (vneg_vsub _ _).symm
+  unfold stepBounds
+  by_cases hB : c.minC ≠ .none ∨ c.maxC ≠ .none
+  · have hB2 : (reflCfg c).minC ≠ .none ∨ (reflCfg c).maxC ≠ .none := hB.symm
+    rw [if_pos hB, if_pos hB2]
+    simp only [if_pos h10, if_pos hc0, e1, e2, projectBoundsConsideringMonotonicity, if_neg h1n, if_pos hm',
+      if_pos hm, Except.map]
+    simp only [reflCfg, reflSt, reflChanges, neg_neg, vneg_vneg, Except.ok.injEq, State.mk.injEq,
+      Changes.mk.injEq, true_and, and_true]
+    refine ⟨?_, ?_⟩
+    · ring
+    · simp only [vneg_vsub, vneg_vneg]
+  · have hB2 : ¬ ((reflCfg c).minC ≠ .none ∨ (reflCfg c).maxC ≠ .none) := fun h => hB h.symm
+    rw [if_neg hB, if_neg hB2]
+    rfl
+
+theorem stepMono_refl (c : Cfg) (s : State) (hm : c.mono = -1) :
+    stepMono (reflCfg c) (reflSt s) = reflSt (stepMono c s) := by
+  have hm' : (reflCfg c).mono = 1 := by simp [reflCfg, hm]
+  have h10 : (reflCfg c).mono ≠ 0 := by omega
+  have hc0 : c.mono ≠ 0 := by omega
+  have hc1 : ¬ c.mono = 1 := by omega
+  unfold stepMono
+  rw [if_pos h10, if_pos hc0]
+  simp only [projectMonotonicity, if_neg h10, if_pos hm', if_neg hc0, if_neg hc1]
+  simp only [reflSt, reflChanges, State.mk.injEq, Changes.mk.injEq, true_and, and_true]
+  rw [← vneg_vsub, map_max_vneg, ← vneg_vsub]
+  exact ⟨rfl, rfl⟩
+
+theorem body_refl (c : Cfg) (L : List Rat) (st : State) (hm : c.mono = -1) (hcv : c.conv = 0) :
+    body (reflCfg c) L (reflSt st) = (body c L st).map reflSt := by
+  rw [body_conv0 c L st hcv, body_conv0 (reflCfg c) L (reflSt st) hcv, stepBounds_refl c st hm]
+  cases stepBounds c st with
+  | error e => rfl
+  | ok s1 => simp only [Except.map, stepMono_refl c s1 hm]
+
+theorem whileLoop_refl (c : Cfg) (L : List Rat) (hm : c.mono = -1) (hcv : c.conv = 0) (lim fuel : Nat)
+    (st st' : State) (h : whileLoop c L lim fuel st = .ok st') :
+    whileLoop (reflCfg c) L lim fuel (reflSt st) = .ok (reflSt st') := by
+  induction fuel generalizing st with
+  | zero => simp only [whileLoop, Except.ok.injEq] at h ⊢; rw [h]
+  | succ k ih =>
+    simp only [whileLoop] at h ⊢
+    have hcnt : (reflSt st).counter = st.counter := rfl
+    rw [hcnt]
+    split_ifs at h ⊢ with hlt
+    · rw [body_refl c L st hm hcv]
+      cases hb : body c L st with
+      | error e => rw [hb] at h; cases h
+      | ok s =>
+        rw [hb] at h
+        simp only [Except.map]
+        exact ih s h
+    · cases h; rfl
+
+/-- **far end, decreasing calibrator, `clamp_min`:** for iterations ≥ 1 without convexity the last
+keypoint output equals `output_min` exactly -/
+theorem far_end_dec (c : Cfg) (hc : CfgOk c) (L : List Rat) (it : Nat) (hit : 1 ≤ it) (b : Rat)
+    (hs : List Rat) (hne : hs ≠ []) (hm : c.mono = -1) (hcv : c.conv = 0) (hmin : c.minC = .clamped)
+    (out : Rat × List Rat) (h : projectAll c L it b hs = .ok out) :
+    out.1 + rsum out.2 = c.omin := by
+  have hB : hasBounds c := Or.inl (by rw [hmin]; simp)
+  have hm0 : c.mono ≠ 0 := by omega
+  have hnp : 2 ≤ numProjections c hs.length := by
+    unfold numProjections; rw [if_pos hB, if_pos hm0]; omega
+  obtain ⟨st, hw, hwl, hf⟩ := projectAll_loop c L it b hs out hnp h
+  have hn : 0 < (vneg hs).length := by simpa using List.length_pos_of_ne_nil hne
+  have hpos : 0 < it * numProjections c hs.length := Nat.mul_pos (by omega) (by omega)
+  have hwl' := whileLoop_refl c L hm hcv _ _ _ st hwl
+  rw [reflSt_init] at hwl'
+  obtain ⟨δ, _, hfar, _⟩ := whileLoop_far (reflCfg c) L (-b) (vneg hs).length hn
+    (by simp [reflCfg, hm]) hcv hmin _ _ _ (reflSt st) (wf_init (-b) (vneg hs))
+    (farPre_init (reflCfg c) (-b) (vneg hs)) hpos (by simpa [initState] using hpos) hwl'
+  have hfar' : st.bias + rsum st.heights ≤ c.omin := by
+    simp only [reflSt, reflCfg, rsum_vneg] at hfar
+    linarith
+  rw [finalize_eq] at hf
+  have hB' : c.minC ≠ .none ∨ c.maxC ≠ .none := hB
+  have h2 : ¬ (c.mono ≠ 0 ∧ c.conv ≠ 0) := fun hh => hh.2 hcv
+  rw [if_pos hB', if_neg h2] at hf
+  cases hf
+  simp only
+  rw [clipDiffs_last]
+  have hfh : finalHeights c L st.heights = st.heights.map (fun h => min h 0) := by
+    have h1 : ¬ ((-1 : Int) = 0) := by omega
+    have h2 : ¬ ((-1 : Int) = 1) := by omega
+    simp [finalHeights, hm, hcv, projectMonotonicity, h1, h2]
+  have hu : unclamp c.minC = .bound := by rw [hmin]; rfl
+  rw [hu, hfh]
+  exact clipB_of_le_min _ _ _ _ (le_trans (by linarith [rsum_map_min_le st.heights]) hfar')
+    (fun e => hc.bnd (by rw [hmin]; simp) ((unclamp_bound _).mp e))
+
 end Tfl.PwlProj
